@@ -278,6 +278,21 @@ def rule_r2(p, res):
     r.instance(ci)
     s = norm(ci.node)
     r.check("if n_components is None:\n        return np.linalg.inv(cov_mat)" in s, ci, ci.node, "without rank truncation the block covariance is inverted exactly")
+    # rank truncation: U[:, :k] diag(1 / S[:k]) Vt[:k, :]
+    svd = [n for n in walk_own(ci.node) if isinstance(n, ast.Assign) and isinstance(n.value, ast.Call) and (dotted(n.value.func) or "").endswith("linalg.svd") and isinstance(n.targets[0], ast.Tuple)]
+    need(len(svd) == 1 and len(svd[0].targets[0].elts) == 3, "C12.R2: truncated inverse must unpack one SVD")
+    U, S, Vt = [x.id for x in svd[0].targets[0].elts]
+    dci = Defs(ci.node)
+    sl = {}
+    for nm in (U, S, Vt):
+        vs = [v for k, v, st in dci.of(nm) if k == "assign" and isinstance(v, ast.Subscript)]
+        sl[nm] = norm(vs[0].slice) if len(vs) == 1 else None
+    want = {U: "(slice(None, None, None), slice(None, n_components, None))", S: "slice(None, n_components, None)", Vt: "(slice(None, n_components, None), slice(None, None, None))"}
+    got_ok = sl[U] in (":, :n_components", "(:, :n_components)") and sl[S] == ":n_components" and sl[Vt] in (":n_components, :", "(:n_components, :)")
+    r.check(got_ok, ci, svd[0], "rank truncation must keep the first k columns of U, the first k singular values and the first k rows of Vt (found %s): a non-conformant slice is swallowed "
+            "by the fallback `except` and truncation is silently ignored" % sl, {"truncation_slices": sl})
+    rets = [norm(x.value) for x in returns_of(ci.node)]
+    r.check("%s.dot(np.diag(1 / %s)).dot(%s)" % (U, S, Vt) in rets, ci, ci.node, "truncated inverse = U_k diag(1/S_k) Vt_k")
 
 
 def _epilogue(f):
@@ -373,6 +388,7 @@ WITNESSES = [
     Witness("C12.W8", "menpo/model/gmrf.py", "GMRFVectorModel.__init__", "constructor = partial(_create_dense_precision, mode=self.mode)", "constructor = _create_dense_precision", rule="C12.R2", construct="GMRFVectorModel.__init__"),
     Witness("C12.W9", "menpo/model/gmrf.py", "_create_dense_precision", "edge_data = X[:, list(range(v1_from, v1_to)) + list(range(v2_from, v2_to))]",
             "edge_data = X[:, list(range(v2_from, v2_to)) + list(range(v1_from, v1_to))]", rule="C12.R1", construct="_create_dense_precision"),
+    Witness("C12.W10", "menpo/model/gmrf.py", "_covariance_matrix_inverse", "d = d[:n_components, :]", "d = d[:, :n_components]", rule="C12.R2", construct="_covariance_matrix_inverse", note="seeded change C12-B"),
     Witness("C12.T1", "menpo/model/gmrf.py", "_create_dense_precision", "precision[v1_from:v1_to, v2_from:v2_to] = -covmat\n            precision[v2_from:v2_to, v1_from:v1_to] = -covmat",
             "precision[v2_from:v2_to, v1_from:v1_to] = -covmat\n            precision[v1_from:v1_to, v2_from:v2_to] = -covmat", kind="T"),
 ]
